@@ -47,7 +47,7 @@ PROPS = {
     "C12": {"quick": [J("^vhC12_(reuse|reuse2|opvalue|conc)_L2$|^vhC12_multi_T2$|^vhC12_overlap_L1$", samples=4), J("^vhC16_overlap_2$|^vhC12_ctxtimeout$", samples=2, timeshim=True)], "thorough": [J("^vhC12_(reuse|reuse2|opvalue)_L3$|^vhC12_multi_T3$", samples=8, maxpaths=2000000), J("^vhC12_conc_L2$|^vhC12_overlap_L2$", samples=4, maxpaths=1000000)], "bounds": {}, "assumptions": []},
     "C01": {"quick": [J("^vhC01_.*_L3$", samples=6), J("^vhC04_chain_L2$", samples=2, only_msgs="after a terminal"), J("^vhC02_core_3x1$", preempt=0, samples=2), J("^vhC05_conc_v1$", preempt=0, samples=1, only_msgs="after a terminal"), J("^vhC10_conc_", preempt=0, samples=1, only_msgs="after a terminal"), J("^vhC02_ctx_n1$", preempt=1, samples=1, only_msgs="after a terminal|grammar")], "thorough": [J("^vhC01_.*_L4$", samples=12), J("^vhC02_core_3x1$", preempt=0, samples=2), J("^vhC02_core_2x2$", preempt=1, samples=2, maxpaths=1500000), J("^vhC05_conc_v1$", preempt=0, samples=1, only_msgs="after a terminal", maxpaths=1500000), J("^vhC10_conc_", preempt=1, samples=1, only_msgs="after a terminal", maxpaths=1500000)],
             "bounds": {"script_length_quick": 3, "script_length_thorough": 4}, "assumptions": []},
-    "C11": {"quick": [J("^vhC11_.*_K4$|^vhC11_pipeshare_2$", samples=4), J("^vhC11_conc_2$", preempt=0, samples=2), J("^vhC11_conc_2$", preempt=1, samples=2), J("^vhC10_conc_(publish|behavior|replay)$", preempt=0, samples=1, only_msgs="linearization"), J("^vhC10_seq_(publish|behavior|replay)_K4$", samples=1)], "thorough": [J("^vhC11_.*_K5$|^vhC11_pipeshare_2$", samples=8), J("^vhC11_conc_2$", preempt=0, samples=2), J("^vhC11_conc_2$", preempt=2, samples=2), J("^vhC10_conc_(publish|behavior|replay)$", preempt=1, samples=1, only_msgs="linearization", maxpaths=1500000)], "bounds": {}, "assumptions": []},
+    "C11": {"quick": [J("^vhC11_.*_K4$|^vhC11_pipeshare_2$|^vhC11_sharereplay_3$", samples=4), J("^vhC11_conc_2$", preempt=0, samples=2), J("^vhC11_conc_2$", preempt=1, samples=2), J("^vhC10_conc_(publish|behavior|replay)$", preempt=0, samples=1, only_msgs="linearization"), J("^vhC10_seq_(publish|behavior|replay)_K4$", samples=1)], "thorough": [J("^vhC11_.*_K5$|^vhC11_pipeshare_2$|^vhC11_sharereplay_3$", samples=8), J("^vhC11_conc_2$", preempt=0, samples=2), J("^vhC11_conc_2$", preempt=2, samples=2), J("^vhC10_conc_(publish|behavior|replay)$", preempt=1, samples=1, only_msgs="linearization", maxpaths=1500000)], "bounds": {}, "assumptions": []},
     "C13": {"quick": [J("^vhC02_core_2x2$|^vhC06_wait_L1$|^vhC08_handoff_n2$", preempt=1, races=True, only_kinds=["race", "crash"], samples=2, maxpaths=600000),
                       J("^vhC17_(tochannel|fromchannel)_L2$|^vhC13_time_n1$", preempt=1, races=True, only_kinds=["race", "crash"], samples=2, maxpaths=600000, timeshim=True),
                       J("^vhC10_conc_|^vhC05_conc_v1$", preempt=0, races=True, only_kinds=["race", "crash"], samples=1, maxpaths=600000)],
